@@ -2,6 +2,7 @@ import DnpProofs.Lemmas.Align
 import DnpProofs.Lemmas.Store
 import DnpProofs.Lemmas.Consistent2
 import DnpProofs.Lemmas.ProcValid
+import DnpProofs.Lemmas.BracketAll
 import DnpModel.Proc.Core
 set_option linter.unusedSectionVars false
 /-!
@@ -336,7 +337,13 @@ theorem model_procs_valid (sc : Scalars κ α) (A : Arith κ α) (obj out : Nat)
     (∀ shift, OpValid sc (.proc (fun d => d.reference A dim shift) obj out)) ∧
     (∀ od, OpValid sc (.proc (fun d => d.normalize A sc.arange od) obj out)) ∧
     (∀ newc, OpValid sc (.proc (fun d => d.interp A sc.arange dim newc) obj out)) ∧
-    (∀ mean ax, OpValid sc (.proc (fun d => d.average mean ax) obj out)) := by
+    (∀ mean ax, OpValid sc (.proc (fun d => d.average mean ax) obj out)) ∧
+    OpValid sc (.proc (fun d => d.ndalign A sc.arange dim) obj out) ∧
+    (∀ regions, (∀ n, (sc.arange n).length = n) →
+      OpValid sc (.proc (fun d => integrateRegions A sc.arange sc.dist d dim regions) obj out)) ∧
+    (∀ idx re, OpValid sc (.proc (fun d => d.enhancement A idx re) obj out)) ∧
+    (∀ np solve, (∀ n, (sc.arange n).length = n) →
+      OpValid sc (.proc (fun d => d.fitPopt sc.arange dim np solve) obj out)) := by
   refine ⟨fun valid kind keys w d r hd hr => apodize_consistent A valid keys w hd hr,
     fun cis d r hd hr => phase_consistent A sc.arange cis hd hr,
     fun cis d r hd hr => autophase_consistent A sc.arange cis hd hr,
@@ -349,7 +356,11 @@ theorem model_procs_valid (sc : Scalars κ α) (A : Arith κ α) (obj out : Nat)
     fun shift d r hd hr => reference_consistent A shift hd hr,
     fun od d r hd hr => normalize_consistent A sc.arange od hd hr,
     fun newc d r hd hr => interp_consistent A sc.arange newc hd hr,
-    fun mean ax d r hd hr => average_consistent mean ax hd hr⟩
+    fun mean ax d r hd hr => average_consistent mean ax hd hr,
+    fun d r hd hr => ndalign_consistent A sc.arange hd hr,
+    fun regions har d r hd hr => integrateRegions_consistent A sc.arange sc.dist har regions hd hr,
+    fun idx re d r hd hr => enhancement_consistent A idx re hd hr,
+    fun np solve har d r hd hr => fitPopt_consistent sc.arange np solve har hd hr⟩
 
 /-- a 3-D witness with pairwise distinct extents (non-vacuity of the hypotheses above) and the
     defect the pinned `sort_dims` had on it -/
